@@ -329,7 +329,9 @@ def search(ctx: C.Ctx, disagreements, broken) -> List[C.Failing]:
     big = C.Ctx(ctx.prop, "thorough", ctx.seed + 1, random.Random(), ctx.t0, ctx.jobs)
     out = oracle(big, C.Coverage())
     if not out:
-        out = c10.oracle(big, C.Coverage())
+        # the sister property's oracle may see what broke; its own recorded findings are not C11's business
+        known = {k["sig"] for k in C.load_known("C10")}
+        out = [f for f in c10.oracle(big, C.Coverage()) if f.sig not in known]
     return out
 
 
